@@ -150,10 +150,19 @@ impl<'a, D> Dfs<'a, D> {
         D: Order,
         T: Iterator<Item = usize>,
     {
+        let order = digraph.order();
+        let mut stack = Vec::new();
+
+        for u in sources {
+            assert!(u < order, "u = {u} isn't in the digraph");
+
+            stack.push(u);
+        }
+
         Self {
             digraph,
-            stack: sources.collect(),
-            visited: vec![false; digraph.order()],
+            stack,
+            visited: vec![false; order],
         }
     }
 }
